@@ -93,7 +93,7 @@ class C17(core.Prop):
         'too_many_positionals_rejected', 'rex_norex_rejected', 'all_fields_rejected', 'per_constraint_contradiction_rejected',
         'output_fields_contradiction_rejected', 'discover_params_exact', 'verify_params_exact', 'detect_params_exact',
         'tie_tables_wf', 'tie_dests', 'tie_documented_spelling', 'tie_positionals']]
-    quick_n = 120
+    quick_n = 200
     thorough_n = 4000
     level = 'proof'
     rule = ('cases: (flags) command lines for discover / verify / detect built from every documented spelling (short and long), '
